@@ -72,9 +72,12 @@ class C18(C16):
             obs["xl_truth"] = case.pop("_xl_truth", None)
             # ground truth rows of the csv tables
             rows = {}
+            inc_rows = {}       # (file, row of the ***include cell) -> its lines
             for f in case["tree"]["files"]:
                 r = 0
                 for b in f["blocks"]:
+                    if b["k"] == "include":
+                        inc_rows[os.path.join(root, f["rel"]) + "#" + str(r)] = list(b["lines"])
                     if b["k"] == "meta":
                         r += 2
                     elif b["k"] == "table":
@@ -86,6 +89,7 @@ class C18(C16):
                     else:
                         r += 3
             obs["truth"] = rows
+            obs["inc_rows"] = inc_rows
             return obs
         finally:
             shutil.rmtree(base, ignore_errors=True)
@@ -118,7 +122,16 @@ class C18(C16):
             # the chain: from the file back to a root item
             if not hist or hist[-1][1] is not None:
                 fails.append(f"history-root: chain of {name} does not end in a root item: {hist}")
-            for (spec, src), nxt in zip(hist, hist[1:] + [None]):
+            for (spec, src, src_row, src_file), nxt in zip(hist, hist[1:] + [None]):
+                if src_row is not None and src_file in tree_files:
+                    lines = obs["inc_rows"].get(f"{src_file}#{src_row}")
+                    outside = os.path.join(obs["base"], "outside")
+                    if lines is None:
+                        fails.append(f"history-directive: item {spec!r} of {name} is said to come from row {src_row} of "
+                                     f"{os.path.basename(src_file)}, where no include directive starts")
+                    elif spec not in [x.replace("ABS_OUTSIDE", outside) for x in lines]:
+                        fails.append(f"history-directive: item {spec!r} of {name} is not a line of the include directive at row "
+                                     f"{src_row} of {os.path.basename(src_file)}")
                 if src is None:
                     if spec not in obs["roots"]:
                         fails.append(f"history-root: root item {spec!r} of {name} is not one of the roots")
@@ -128,6 +141,8 @@ class C18(C16):
                 in_include = any(spec in b["lines"] for f in holders for b in f["blocks"] if b["k"] == "include")
                 in_listing = os.path.exists  # tree removed: accept names of files that lived in that folder
                 is_entry = any(os.path.basename(p) == spec and os.path.dirname(p) == src for p in list(tree_files) + [os.path.join(root, "book.xlsx")])
+                # ... or of a folder that lived there
+                is_entry = is_entry or any(fo and os.path.join(root, fo) == os.path.join(src, spec) for fo in case["tree"]["folders"])
                 if not (in_include or is_entry):
                     fails.append(f"history-link: item {spec!r} from {os.path.relpath(src, obs['base'])} matches no directive or entry there")
         # the location forest
